@@ -11,7 +11,7 @@ namespace PebblesVerif
 
 /-- `ast.Value` -/
 inductive Value where
-  | var (n : String)
+  | var (n : String) (expected : String := "")   -- `ExpectedType.String()` set by the validator ("" for planner-made values)
   | int (s : String)
   | float (s : String)
   | str (s : String)
